@@ -11,7 +11,7 @@ KindOpsDef == [k \in Kinds |-> CASE k = "seq_old" -> {"add_feature", "rc", "slic
                                   [] k = "new_coll" -> {"rc", "rename", "take_seqs", "to_rna"}
                                   [] k = "tree" -> {"bifurcating", "rooted_at", "sorted", "sub_tree"}
                                   [] k = "table" -> {"filtered", "get_columns", "sorted", "transposed", "with_new_column"}
-                                  [] k = "dists" -> {"drop", "take_dists"}
+                                  [] k = "dists" -> {"drop", "set_cells", "take_dists"}
                                   [] k = "dict_array" -> {"to_normalized"}
                                   [] k = "indel_map" -> {"reversed", "slice", "termini_unknown"}
                                   [] k = "feature_map" -> {"covered", "reversed", "slice"}
